@@ -39,6 +39,7 @@ pub fn verify_stark_proof<
     verifier_circuit_fri_params: Option<FriParams>,
 ) -> Result<()> {
     ensure!(proof_with_pis.public_inputs.len() == S::PUBLIC_INPUTS);
+    validate_degree_bits_recoverable(&proof_with_pis.proof, config)?;
     let mut challenger = Challenger::<F, C::Hasher>::new();
 
     let challenges = proof_with_pis.get_challenges(
@@ -217,6 +218,27 @@ where
     Ok(())
 }
 
+/// The trace length is recovered from the length of the first Merkle path of the proof; checks
+/// that such a path exists and yields a supported length, so that recovering it cannot panic.
+fn validate_degree_bits_recoverable<F, C, const D: usize>(
+    proof: &StarkProof<F, C, D>,
+    config: &StarkConfig,
+) -> anyhow::Result<()>
+where
+    F: RichField + Extendable<D>,
+    C: GenericConfig<D, F = F>,
+{
+    let (_, merkle_proof) = proof
+        .opening_proof
+        .query_round_proofs
+        .first()
+        .and_then(|round| round.initial_trees_proof.evals_proofs.first())
+        .ok_or_else(|| anyhow!("Proof has no query round to recover the trace length from."))?;
+    let lde_bits = config.fri_config.cap_height + merkle_proof.siblings.len();
+    ensure!(lde_bits >= config.fri_config.rate_bits && lde_bits <= F::TWO_ADICITY);
+    Ok(())
+}
+
 fn validate_proof_shape<F, C, S, const D: usize>(
     stark: &S,
     proof: &StarkProof<F, C, D>,
@@ -230,6 +252,7 @@ where
     C: GenericConfig<D, F = F>,
     S: Stark<F, D>,
 {
+    validate_degree_bits_recoverable(proof, config)?;
     let degree_bits = proof.recover_degree_bits(config);
 
     let StarkProof {
